@@ -268,6 +268,8 @@ def run(m, o):
             obs.update(extra['obs'](val))
     else:
         obs['msg'] = cps(str(val)[:80]) if val is not None else []
+        if 'obs_on_fail' in extra:
+            obs.update(extra['obs_on_fail']())
     a['inplace'] = b(extra.get('inplace', False))
     return m.emit(name, r, a, out, res, same, obs, o.get('tag', ''))
 
@@ -445,3 +447,199 @@ def _ufm(m, o):
 @op('twincheck')
 def _twin(m, o):
     return {'a': list(o['a']), 'b': list(o['b'])}, (lambda: None), 'scalar', {'obs': lambda v: {}}
+
+
+# ---- str-like methods (C10, C11, C12) --------------------------------------------------------------
+def _pycall(fn):
+    out, v = guarded(fn)
+    return out, v
+
+
+def enc_py(v):
+    """Encode a CPython str-method result for TLC."""
+    if isinstance(v, bool):
+        return {'t': 'b', 'v': b(v)}
+    if isinstance(v, int):
+        return {'t': 'i', 'v': clamp(v)}
+    if isinstance(v, str):
+        return {'t': 's', 'v': cps(v)}
+    if isinstance(v, (list, tuple)) and all(isinstance(x, str) for x in v):
+        return {'t': 'l', 'v': [cps(x) for x in v]}
+    if isinstance(v, bytes):
+        return {'t': 's', 'v': list(v)}
+    return {'t': '?', 'v': 0}
+
+
+def text_op(m, o, a, libcall, pycall, rkind, inplace=False, extra_obs=None):
+    pyout, pyv = _pycall(pycall)
+
+    def obs(v):
+        d = {'pyout': pyout, 'py': enc_py(pyv) if pyout == 'ok' else {'t': 'x', 'v': 0}}
+        if rkind == 'scalar':
+            d['val'] = enc_py(v)
+        if extra_obs:
+            d.update(extra_obs(v))
+        return d
+    a = dict(a)
+    a['m'] = o['m'] if 'm' in o else o['op']
+    ex = {'inplace': inplace, 'obs': obs, 'obs_on_fail': lambda: {'pyout': pyout, 'py': enc_py(pyv) if pyout == 'ok' else {'t': 'x', 'v': 0}}}
+    return a, libcall, rkind, ex
+
+
+def _is_S(m, r):
+    return m.kinds[r] == 'S'
+
+
+@op('case')
+def _case(m, o):
+    x = m.regs[o['r']]
+    meth = o['m']
+    ip = bool(o.get('inplace')) and _is_S(m, o['r'])
+    t = x.base_str
+    if _is_S(m, o['r']):
+        call = lambda: getattr(x, meth)(inplace=ip)
+    else:
+        call = lambda: getattr(x, meth)()
+    return text_op(m, o, {}, call, (lambda: getattr(t, meth)()), 'obj', ip)
+
+
+@op('pad')
+def _pad(m, o):
+    x = m.regs[o['r']]
+    meth, width = o['m'], o['width']
+    fill = o.get('fill')
+    ext = o.get('extend', True)
+    ip = bool(o.get('inplace')) and _is_S(m, o['r'])
+    t = x.base_str
+    S = _is_S(m, o['r'])
+    if meth == 'zfill':
+        call = (lambda: x.zfill(width, inplace=ip)) if S else (lambda: x.zfill(width))
+        py = lambda: t.rjust(width, '0')
+        fillc, ext = '0', True
+    else:
+        f = ' ' if fill is None else fill
+        fillc = f
+        if S:
+            args = [width] + ([] if fill is None else [fill])
+            call = lambda: getattr(x, meth)(*args, inplace=ip, extend_formatting=ext)
+        else:
+            ext = True
+            call = (lambda: getattr(x, meth)(width)) if fill is None else (lambda: getattr(x, meth)(width, fill))
+        if meth == 'center':
+            def py():
+                if len(f) != 1:
+                    raise TypeError('fill')
+                n = max(0, width - len(t))
+                return f * (n // 2) + t + f * (n - n // 2)
+        else:
+            py = lambda: getattr(t, meth)(width, f)
+    a = {'width': clamp(width), 'fill': cps(fillc), 'extend': b(ext)}
+    return text_op(m, o, a, call, py, 'obj', ip)
+
+
+@op('strip')
+def _strip(m, o):
+    x = m.regs[o['r']]
+    meth = o['m']
+    chars = o.get('chars')
+    ip = bool(o.get('inplace')) and _is_S(m, o['r'])
+    t = x.base_str
+    if _is_S(m, o['r']):
+        call = lambda: getattr(x, meth)(chars, inplace=ip)
+    else:
+        call = lambda: getattr(x, meth)(chars)
+    py = lambda: getattr(t, meth)(' \t\n\r\v\f' if chars is None else chars)
+    return text_op(m, o, {'chars': [] if chars is None else [cps(chars)]}, call, py, 'obj', ip)
+
+
+@op('rmfix')
+def _rmfix(m, o):
+    x = m.regs[o['r']]
+    meth, s = o['m'], o['s']
+    ip = bool(o.get('inplace')) and _is_S(m, o['r'])
+    t = x.base_str
+    call = (lambda: getattr(x, meth)(s, inplace=ip)) if _is_S(m, o['r']) else (lambda: getattr(x, meth)(s))
+    return text_op(m, o, {'s': cps(s)}, call, (lambda: getattr(t, meth)(s)), 'obj', ip)
+
+
+@op('replace')
+def _replace(m, o):
+    x = m.regs[o['r']]
+    old, count = o['old'], o.get('count', -1)
+    new = m.regs[o['new']]
+    ip = bool(o.get('inplace')) and _is_S(m, o['r'])
+    t = x.base_str
+    newt = new if isinstance(new, str) and not hasattr(new, 'base_str') else new.base_str
+    if _is_S(m, o['r']):
+        call = lambda: x.replace(old, new, count, inplace=ip)
+    else:
+        call = lambda: x.replace(old, new, count)
+    py = lambda: t.replace(old, newt, count)
+    return text_op(m, o, {'old': cps(old), 'new': o['new'], 'count': clamp(count)}, call, py, 'obj', ip)
+
+
+@op('expandtabs')
+def _expandtabs(m, o):
+    x = m.regs[o['r']]
+    ts = o.get('tabsize', 8)
+    ip = bool(o.get('inplace')) and _is_S(m, o['r'])
+    t = x.base_str
+    call = (lambda: x.expandtabs(ts, inplace=ip)) if _is_S(m, o['r']) else (lambda: x.expandtabs(ts))
+    return text_op(m, o, {'tabsize': clamp(ts)}, call, (lambda: t.replace('\t', ' ' * ts)), 'obj', ip)
+
+
+@op('split')
+def _split(m, o):
+    x = m.regs[o['r']]
+    meth, sep, mx = o['m'], o.get('sep'), o.get('maxsplit', -1)
+    t = x.base_str
+    return text_op(m, o, {'sep': [] if sep is None else [cps(sep)], 'maxsplit': clamp(mx)},
+                   (lambda: getattr(x, meth)(sep, mx)), (lambda: getattr(t, meth)(sep, mx)), 'objs')
+
+
+@op('splitlines')
+def _splitlines(m, o):
+    x = m.regs[o['r']]
+    keep = bool(o.get('keepends'))
+    t = x.base_str
+    return text_op(m, o, {'keep': b(keep)}, (lambda: x.splitlines(keep)), (lambda: t.splitlines(keep)), 'objs')
+
+
+@op('partition')
+def _partition(m, o):
+    x = m.regs[o['r']]
+    meth, sep = o['m'], o['sep']
+    t = x.base_str
+    return text_op(m, o, {'sep': cps(sep)}, (lambda: getattr(x, meth)(sep)), (lambda: getattr(t, meth)(sep)), 'objs')
+
+
+@op('assign_str')
+def _assign(m, o):
+    x = m.regs[o['r']]
+    s = o['text']
+    return {'text': cps(s)}, (lambda: x.assign_str(s)), 'none', {'inplace': True}
+
+
+QUERY0 = ['isalnum', 'isalpha', 'isascii', 'isdecimal', 'isdigit', 'isidentifier', 'islower', 'isnumeric', 'isprintable',
+          'isspace', 'istitle', 'isupper']
+QUERY_SUB = ['count', 'find', 'rfind', 'index', 'rindex', 'endswith']
+
+
+@op('query')
+def _query(m, o):
+    x = m.regs[o['r']]
+    meth = o['m']
+    t = x.base_str
+    if meth in QUERY0:
+        return text_op(m, o, {}, (lambda: getattr(x, meth)()), (lambda: getattr(t, meth)()), 'scalar')
+    if meth == 'len':
+        return text_op(m, o, {}, (lambda: len(x)), (lambda: len(t)), 'scalar')
+    if meth == 'contains':
+        other = m.regs[o['other']] if 'other' in o else o['sub']
+        ot = other if type(other) is str else other.base_str
+        return text_op(m, o, {'sub': cps(ot)}, (lambda: other in x), (lambda: ot in t), 'scalar')
+    if meth == 'encode':
+        return text_op(m, o, {}, (lambda: x.encode()), (lambda: str(x).encode()), 'scalar')
+    sub, st, en = o['sub'], o.get('start'), o.get('end')
+    return text_op(m, o, {'sub': cps(sub), 'start': opt(st), 'end': opt(en)},
+                   (lambda: getattr(x, meth)(sub, st, en)), (lambda: getattr(t, meth)(sub, st, en)), 'scalar')
